@@ -25,7 +25,7 @@ from vlib import Inconclusive, log
 
 BACKENDS = ["sqlite", "dynamodb", "etag"]
 COUNT = {"quick": 60, "thorough": 2000}
-MODEL_CFG = {"quick": ["MC_cas_q.cfg", "MC_cas_aba.cfg"], "thorough": ["MC_cas.cfg", "MC_cas_aba.cfg"]}
+MODEL_CFG = {"quick": ["MC_cas_q.cfg"], "thorough": ["MC_cas.cfg", "MC_cas_aba.cfg"]}
 BATCH = 250
 TLC_FIELDS = ("i", "c", "op", "old", "new", "res", "val", "call", "ret")
 
@@ -70,7 +70,7 @@ def record(tier, sd, wd, binp):
     only = os.environ.get("VERIF_ONLY", "")
     count = int(os.environ.get("VERIF_CAS_COUNT", COUNT[tier]))
     backends = os.environ.get("VERIF_CAS_BACKENDS", ",".join(BACKENDS))
-    shards = 1 if only else min(vlib.NCPU, 16 if tier == "thorough" else 8)
+    shards = 1 if only else min(vlib.NCPU, 16)
     procs = []
     for i in range(shards):
         d = os.path.join(wd, "shard%02d" % i)
@@ -171,6 +171,23 @@ def run_tlc(batch, wd, n, diag=False):
     return viol, states, trans, uncond, deepest
 
 
+def stuck_at(deepest, h):
+    """The deepest state TLC reached for history h (diagnostic pass): how many
+    operations could be linearized, and the operations no continuation could
+    explain (the next operation of every client there)."""
+    m = re.search(r'<<"%s",\s*<<(\d+),\s*<<([\d,\s]*)>>,\s*"([^"]*)">>' % re.escape(h["name"]), deepest)
+    if not m:
+        return None
+    pos = [int(x) for x in m.group(2).replace(" ", "").replace("\n", "").split(",") if x]
+    nxt = []
+    for c, p in enumerate(pos):
+        ops = h["cl"][c] if c < len(h["cl"]) else []
+        if p <= len(ops):
+            nxt.append(h["ops"][ops[p - 1] - 1])
+    return {"operations_linearized_at_most": int(m.group(1)), "of": len(h["ops"]), "register_there": m.group(3),
+            "next_operation_of_each_client_there": nxt}
+
+
 def sample(h, n=14):
     return {"history": h["name"], "clients": len(h["cl"]), "operations": len(h["ops"]),
             "first_operations": [{k: o[k] for k in ("c", "op", "old", "new", "res", "val", "call", "ret")} for o in h["ops"][:n]],
@@ -234,7 +251,7 @@ def run(prop, tier):
                 "what": ("no linearization of this history is a behaviour of CASRegister" if f == "C05.Linearizable" else
                          "every linearization needs a fetch of a missing log that reported an error other than ErrLogNotFound"),
                 "unconditional_write_requests_seen_by_fake": uncond.get(name, 0),
-                "tlc_deepest_state": deepest if name in bad[:20] else "",
+                "tlc_deepest_state": stuck_at(deepest, h),
                 "history": h})
             d = "formula %s false on history %s (%d operations, %d clients)" % (f, name, len(h["ops"]), len(h["cl"]))
             if uncond.get(name):
